@@ -35,7 +35,12 @@ PROBE_SHAPES = [((((), ()),), ((),)), (((), ((), ())), ((), ())), ((((), (), ())
 _W_UNIV = ["s:n0", "s:n1", "s:n2", "s:new", "s:f1", "s:f2", "s:f3", "e:9"]
 _W_SETUP = [["new", False, None], ["add", 0, 0, 0, None, None, None], ["add", 0, 1, 1, None, None, None], ["add", 0, 0, 2, None, None, None],
             ["new", False, None], ["add", 1, 0, 0, None, None, None], ["add", 1, 4, 3, None, None, None]]
+_WT_SETUP = [["new", True, None], ["add", 0, 0, 0, None, "k1", None], ["add", 0, 1, 1, None, "k1", None], ["add", 0, 0, 2, None, "k1", None],
+             ["new", True, None], ["add", 1, 0, 0, None, "k1", None], ["add", 1, 4, 3, None, "k2", None]]
 RAW_CORPUS: list = [
+    dict(id="D82", kind="probe", univ=_W_UNIV, setup=_WT_SETUP, typed=True, only=["TypedTree.add(data, kind=ANY_KIND)"]),
+    dict(id="D82b", kind="probe", univ=_W_UNIV, setup=_WT_SETUP, typed=True, only=["TypedNode.add(node, kind=5)"]),
+    dict(id="D82c", kind="probe", univ=_W_UNIV, setup=_WT_SETUP, typed=True, only=["TypedNode.append_child(node, kind=False, deep=True)"]),
     dict(id="D80", kind="probe", univ=_W_UNIV, setup=_W_SETUP, typed=False, only=["Node.add(data, before='x')"]),
     dict(id="D80b", kind="probe", univ=_W_UNIV, setup=_W_SETUP, typed=False, only=["Node.add(node, before=1.5)"]),
     dict(id="D81", kind="probe", univ=_W_UNIV, setup=_W_SETUP, typed=False, only=["Node.add(data, data_id=[1])"]),
@@ -74,7 +79,9 @@ class Prop:
             "clean with counting callbacks and then once per invocation k with an exception raised at exactly that invocation; plus ~75 calls "
             "with arguments outside the documented types (before = str / float / object / list, unhashable data_id - explicit or returned by "
             "calc_data_id -, unhashable data, duplicate / non-numeric node_id, malformed from_dict items, None / str targets, uncomparable sort "
-            "keys, ...): whatever they raise, the snapshot is unchanged; (e) seeded "
+            "keys, and on typed trees an invalid `kind` = ANY_KIND / int / tuple / list / bytes / bool / '' on every route that takes or passes "
+            "on a kind: add, add_child x before, append_child, prepend_child, add(node, kind=) shallow and deep, the sibling shortcuts, copy_to, "
+            "move_to, from_dict items, load of a file with that kind, ...): whatever they raise, the snapshot is unchanged; (e) seeded "
             "random histories (half malformed: invalid before, colliding ids, foreign targets, moves into the own branch, raising callbacks). "
             "A case = one history or one (setup, <=40 alternative last ops) group or one probe set; distinct = distinct (universe, ops); "
             "non-trivial = at least one refusal or escaped exception was observed")
@@ -184,7 +191,7 @@ class Prop:
         pshapes = PROBE_SHAPES[:2] if quick else PROBE_SHAPES + [s for s in H.forests(3)]
         for shape in pshapes:
             for lname in ("distinct", "equal", "clones"):
-                for ty in ((False,) if quick else (False, True)):
+                for ty in (((False, True) if (shape, lname) == (pshapes[0], "distinct") else (False,)) if quick else (False, True)):
                     st = M.two_tree_setup(shape, lname, ty)
                     if st is None:
                         continue
@@ -206,6 +213,8 @@ class Prop:
             if desc.get("only") and len(desc["only"]) == 1:
                 if desc["setup"] != _W_SETUP and not desc.get("typed"):
                     yield dict(kind="probe", univ=_W_UNIV, setup=_W_SETUP, typed=False, only=desc["only"])
+                if desc["setup"] != _WT_SETUP and desc.get("typed"):
+                    yield dict(kind="probe", univ=_W_UNIV, setup=_WT_SETUP, typed=True, only=desc["only"])
                 return
             pf, _ = M.run_probes(desc["univ"], desc["setup"], only=desc.get("only"))
             rf, _ = M.run_raw_invalid(desc["univ"], desc["setup"], desc.get("typed", False), only=desc.get("only"))
